@@ -60,6 +60,38 @@ META.update({
         note="Termination and recursion depth are not decided (partial correctness); RecursionError on pathological nesting is a known limit of the technique." + B_NOTE,
         technique=TECH_PB,
         assumptions=["arguments are str (the property quantifies over strings)", "termination not proved"]),
+    "C03": dict(
+        built=True, bounded=True, level="exploration", tierP=False, min_obligations=0, design="§6 C03",
+        claim=("BOUNDED: for every closed catalogue document of <=2 (quick) / <=3 (thorough) primary lines, all permutations of its lines (up to 5 / 6 lines, else seeded samples) build the same version, "
+               "identifier namespace, canonical content, per-line reference targets and back-reference sets; no placeholder remains; WF holds. Same-identifier O lines keep their relative order "
+               "(C17 defines their concatenation by arrival) and documents whose paths do not determine their links (unspecified overlaps over parallel links) are excluded as not pinned."),
+        note="The permutation quantifier is not within PyVC's reach (commutativity of add_line needs functional contracts of the whole orchestration)." + B_NOTE,
+        technique="bounded contract check of Gfa.__init__ (view(result) = specview(multiset(lines))) over all permutations of small documents",
+        assumptions=["documents drawn from bounded/universe.py"]),
+    "C08": dict(
+        built=True, bounded=True, level="exploration", tierP=False, min_obligations=0, design="§6 C08",
+        claim=("BOUNDED: on every catalogue state, each of ~25 operations per version that are meant to fail (duplicates, identifier clashes across record types, version conflicts, malformed fields, "
+               "inconsistent header values, contradictory group tags, illegal edits, renames to names in use) leaves the full-state snapshot (content, version, identifiers, per-line references and "
+               "back-references) unchanged when it raises; two failing calls followed by a legal add behave like a fresh Gfa."),
+        note="Observable state = written content, version, names, and per-line reference/back-reference identities (bounded/state.py snapshot); the line queue and the integer-name counter are not observed." + B_NOTE,
+        technique="bounded frame check (state' = state on exceptional exit) of the public mutators over enumerated failing operations",
+        assumptions=["failing-operation list of bounded/c08.py"]),
+    "C09": dict(
+        built=True, bounded=True, level="exploration", tierP=False, min_obligations=0, design="§6 C09",
+        claim=("BOUNDED (exhaustive over the identifier pool): on 3 catalogue states per version, adding every identified record type / renaming every identified line to every identifier class "
+               "(in use by the same type, by another type, fresh, '*', integer-looking) raises NotUniqueError iff the identifier is in use; afterwards identifiers are pairwise distinct, "
+               "line(id) returns the carrier, a rename equals substitution in the independent text model, unused_name() is fresh."),
+        note="Renaming a U/O line onto an existing group of the same type is not pinned (documented merge vs. error)." + B_NOTE,
+        technique="bounded check of the UNIQ invariant and of the add/rename contracts against the text model",
+        assumptions=["states of bounded/c09.py"]),
+    "C10": dict(
+        built=True, bounded=True, level="exploration", tierP=False, min_obligations=0, design="§6 C10",
+        claim=("BOUNDED: on catalogue Gfas at vlevel 0/1/3 every read-only call of the list in bounded/c10.py (about 60 kinds: writes, field reads, validation, clone/eq/diff, alignment complement and lengths, "
+               "link complement/equivalence/compatibility against every other link, neighbourhoods, topology, path and set resolution) is made twice in random order: the full-state snapshot never changes "
+               "and the two answers are equal. to_gfa2_s of L/C lines assigns an ID by design and is not in the list."),
+        note="The frame obligations (modifies = {}) on the real functions are being brought under PyVC contract function by function; until then the claim is bounded." + B_NOTE,
+        technique="bounded frame check (modifies nothing) of the read-only API",
+        assumptions=["read-only API list of bounded/c10.py"]),
 })
 
 NOT_BUILT_REASON = "check not built yet at this commit (work in progress; see DESIGN.md §7 priorities)"
